@@ -603,8 +603,10 @@ class ProgGen:
         pts, params, env = [], [], list(self.globals)
         for _ in range(nparams):
             pn = self.fresh("p")
-            if self.structs and self.opt["structs"] and r.random() < 0.2:
-                st = r.choice(self.structs)
+            byval = [x for x in self.structs if not any(f[2] for f in x.fields)]
+            if byval and self.opt["structs"] and r.random() < 0.25:
+                # structs with bit-fields are not passed by value: known finding bitfield-unit-overlap-descriptor
+                st = r.choice(byval)
                 pts.append(st)
                 params.append("struct %s %s" % (st.name, pn))
                 env.append(Var(pn, None, "struct", fields=st))
@@ -616,8 +618,8 @@ class ProgGen:
         k = r.random()
         if k < 0.15:
             rt = None
-        elif k < 0.3 and self.structs and self.opt["structs"]:
-            rt = r.choice(self.structs)
+        elif k < 0.3 and [x for x in self.structs if not any(f[2] for f in x.fields)] and self.opt["structs"]:
+            rt = r.choice([x for x in self.structs if not any(f[2] for f in x.fields)])
         else:
             rt = self.anytype()
         rname = "void" if rt is None else ("struct %s" % rt.name if isinstance(rt, Struct) else rt.name)
